@@ -230,9 +230,13 @@ def _f_worker(args):
     pid, n, seed, corpus = args
     rng = random.Random(seed)
     cfgs = list(corpus) + [factory.gen_config(rng, with_fleet=True) if i % 3 else factory.gen_config_sc(rng) for i in range(n)]
+    if pid == "C20":
+        cfgs += [factory.gen_invalid(rng) for _ in range(max(4, n // 3))]
     out = dict(evals=0, tags=collections.Counter(), sigs=set(), dis=[], viol=[], samples=[], lines=0)
     for lo in range(0, len(cfgs), 100):
-        batch = factory.run_batch(cfgs[lo:lo + 100])
+        chunk = cfgs[lo:lo + 100]
+        batch = factory.run_batch([c for c in chunk if not c.get("model_skip")])
+        batch += [dict(case=c, impl=factory.run_impl(c), model=[], dis=None) for c in chunk if c.get("model_skip")]
         if pid == "C03":
             # the verified conservation monitor (coq/theories/Traces/Conserve.v) on the implementation's trace
             ok = [r for r in batch if not any(l.startswith(("CRASH", "EXHAUSTED")) for l in r["impl"])]
@@ -359,6 +363,10 @@ SPECS = {
     "C15": dict(run=run_factory, trusted=L2_TRUST),
     "C17": dict(run=run_factory, trusted=L2_TRUST + ["exact arithmetic in the theorems; the implementation uses binary floats (integer delays in the harness keep it exact)"]),
     "C18": dict(run=run_factory, trusted=L2_TRUST + ["integer time ticks in the integral theorem"]),
+    "C09": dict(run=run_factory, trusted=L2_TRUST),
+    "C10": dict(run=run_factory, trusted=L2_TRUST + ["the end-of-instant statement is checked at the end of every explored run, not proved"]),
+    "C16": dict(run=run_factory, trusted=L2_TRUST),
+    "C20": dict(run=run_factory, trusted=L2_TRUST + ["crash freedom and finiteness per instant are explored (valid + invalid configuration streams), not proved"]),
     "C19": dict(run=run_c19, trusted=L2_TRUST + ["hash / identity dependence is a property of the CPython run, not of the model: it is tested (several hash seeds, allocation histories), not proved"]),
     "C11": dict(run=run_c11, trusted=["modelled, not verified: Buffer / BufferStore classes, SimPy kernel (its contract 'an event scheduled "
                                       "for t is processed at now = t, the clock never passes a pending event' is the legality condition "
